@@ -473,6 +473,13 @@ class SArr(Sym):
             tup = idx if isinstance(idx, tuple) else (idx,)
             order = list(self.perm) if self.perm is not None else list(range(self.ndim))
             full = [self._norm_index(zi(i), n, 'store') for i, n in zip(tup, self.shape)]
+            if isinstance(value, SArr):
+                # numpy >= 2.? : a[i] = <array with ndim >= 1> is "setting an array element with a sequence" even for ONE
+                # element (no implicit conversion of size-1 arrays to scalars); a 0-d array is accepted
+                if value.ndim > 0:
+                    from .core import program_exception
+                    raise program_exception(ValueError('setting an array element with a sequence.'))
+                value = wrap_scalar(value.at(), value.kind)
             t = self._cast_scalar(value)
             sidx = self.storage_index(full)
             old = self.cell.elt
@@ -580,6 +587,9 @@ class SArr(Sym):
     def __bool__(self):
         if self.ndim == 0:
             return bool(wrap_scalar(self.at(), self.kind))
+        if all(conc(n) == 1 for n in self.shape):
+            # numpy: the truth value of an array with exactly ONE element is that element's
+            return bool(wrap_scalar(self.at(*[z3.IntVal(0)] * self.ndim), self.kind))
         raise OutOfSubset('truth value of an array')
 
     def __iter__(self):
@@ -641,6 +651,13 @@ class SArr(Sym):
         if self.ndim != 2:
             raise OutOfSubset('diagonal() on rank %d' % self.ndim)
         return npspec.diag(self)
+
+    def ravel(self):
+        """numpy.ravel: the elements in row-major order (1-d input: the array itself; otherwise a COPY here - writes through the
+        result are not propagated, as with flatten)"""
+        if self.ndim == 1:
+            return self
+        return self.flatten()
 
     def flatten(self):
         if self.ndim == 1:
